@@ -318,6 +318,10 @@ def run(ctx, rep):
     sticky_failure_rule(P, rep)
     errno_class_rule(P, rep, 'R-C08-10')
     writer_error_scan_rule(P, rep, 'R-C08-1w')
+    writer_report_unconditional_rule(P, rep, 'R-C08-3r')
+    from .C04 import scrub_marking_rule
+    rep.rule('R-C08-4m', 'scrub marking: a stripe with an i/o (or silent) error is marked bad whatever other errors it has; refresh only when clean', 3)
+    scrub_marking_rule(P, rep, 'R-C08-4m')
     from .C15 import dirty_bit_rule
     dirty_bit_rule(P, rep, 'R-C08-9', 'state_scrub_process', {'info_set'})
 
@@ -677,3 +681,27 @@ def writer_error_scan_rule(P, rep, rid):
         rep.check(visited == list(range(n)), rid, 'bound of the loop over the writer errors', t.loc(), 'visits entries %s of %d' % (visited, n), function='state_sync_process', construct='writer error loop bound')
     if not checked:
         raise AnalysisBroken('state_sync_process: loop over the writer error array not found')
+
+
+def writer_report_unconditional_rule(P, rep, rid):
+    """io_write_next hands the errors of the parity writers to the engine (and clears them).  It must do so on every call, also for a
+    stripe whose parity write is skipped: errors delivered only together with a scheduled write are lost when every stripe after the
+    failing one is skipped (a new small file followed by stripes that only changed their time-stamp), and sync ends "Everything OK"."""
+    rep.rule(rid, 'io_write_next (both engines): every path to the return reads io->writer_error[] into the caller\'s array, whatever `skip` is', 2)
+    n = 0
+    for f in P.defined():
+        if not (f.file or '').endswith('io.c') or not base(f.name).startswith('io_write_next'):
+            continue
+        rd = [i for i in f.all_insts() if i.op == 'load' and 'io->writer_error[' in f.expr(['i', i.id])]
+        if not rd:
+            continue
+        n += 1
+        rep.analysed(f)
+        # the reads sit in a copy loop: passing the header of that loop counts (a loop with a constant trip count is always entered)
+        thru = list(rd) + [f.blocks[f.loop_of(r.block)][0] for r in rd if f.loop_of(r.block) is not None]
+        miss = [r for r in f.returns() if not f.must_pass(r, thru)]
+        rep.check(not miss, rid, '%s reports the writer errors on every path' % base(f.name), rd[0].loc(),
+                  '%d reading sites, every return passes one' % len(rd) if not miss else 'a path reaches the return without reading io->writer_error[] (the report depends on whether this stripe schedules a write): the error of an earlier parity write is delivered only by a later call that writes, or never',
+                  function=base(f.name), construct='writer errors reported conditionally')
+    if n < 1:
+        raise AnalysisBroken('io_write_next implementations that read io->writer_error not found')
